@@ -6,7 +6,9 @@ inline and external script references, and every non-assignable form.  TLC check
 specification (Eval(e, SetAt(D, LPath(e, D), w)) = w) for every case and attaches LPath to every
 site; the harness compares each path the generated code hands to the runtime (R.r 4th/5th, R.v,
 R.p, R.l last, F 4th argument) with it in the three prefix conventions, requires "no path" for
-non-assignable expressions, and repeats get-put on the real code."""
+non-assignable expressions, and repeats get-put on the real code.  Family UL of spec/MCInstance.tla
+re-evaluates data-dependent paths (dynamic keys, conditionals between data objects and between script
+modules) through tree updates and binding-map updaters; the paths are judged again after every step."""
 import json
 
 import c04
@@ -23,12 +25,23 @@ def run(tier, seed, replay):
     rnd = vlib.rng(seed, "c11")
     if replay:
         case = json.load(open(replay))["case"]
-        cases = [{"files": case["files"], "data": case["data"], "tree": case["tree"], "family": "F7", "paths": True}]
+        cases = [{"files": case["files"], "data": case["data"], "tree": case["tree"], "family": case.get("family", "F7"), "paths": True,
+                  "steps": case.get("steps") or []}]
     else:
         res = vlib.tlc("MCWxmlSem", cfg="MCWxmlSem_F7", workers=8, timeout=900)
         vlib.tlc_expect_ok(res, "MCWxmlSem F7 (get-put on the specification)")
         ck.add_tlc(res)
         cases = [dict(c, family="F7", paths=True) for c in res.cases]
+        # paths under update: family UL of spec/MCInstance.tla (a dynamic key, a conditional between data objects or script
+        # modules), two steps of tree updates (exact / whole) and binding-map updates; the paths are judged after every step
+        import c06
+        res2 = vlib.tlc("MCInstance", cfg="MCInstance_UL", workers=6, timeout=900)
+        vlib.tlc_expect_ok(res2, "MCInstance UL")
+        ck.add_tlc(res2)
+        for c in res2.cases:
+            k = c06.to_case(c, "UL")
+            k["paths"] = True
+            cases.append(k)
     records = semrun.replay(cases, rnd, nvariants=2 if tier == "quick" else 5, chunk=100)
     given = 0
     getput = 0
